@@ -434,8 +434,15 @@ func genMercHistory(r *rand.Rand, ver int, rounds int) mercIn {
 				if r.Intn(3) == 0 {
 					o.Mf -= 10 // a correct node that lags behind: two values can both reach f+1 votes
 				}
-				o.LV, o.Link = r.Intn(8) != 0, i192(big.NewInt(int64(1000+r.Intn(10))))
-				o.NV, o.Native = r.Intn(8) != 0, i192(big.NewInt(int64(2000+r.Intn(10))))
+				o.LV, o.Link = r.Intn(6) != 0, i192(big.NewInt(int64(1000+r.Intn(10))))
+				o.NV, o.Native = r.Intn(6) != 0, i192(big.NewInt(int64(2000+r.Intn(10))))
+				// a correct node whose fee fetch failed sends the invalid flag with NO bytes (what Observation() does)
+				if !o.LV && r.Intn(2) == 0 {
+					o.Link = nil
+				}
+				if !o.NV && r.Intn(2) == 0 {
+					o.Native = nil
+				}
 				o.SV, o.Status = r.Intn(10) != 0, uint32(1+r.Intn(2)/2)
 				if ver == 1 {
 					head := block - int64(r.Intn(2))
